@@ -223,7 +223,7 @@ def axi2wb_contract(h, d, m, wb, base, quick_limits, err_case=False):
     h.cover("cover.rd.burst", z3.And(rd_done, glen == K(2, 8), word_of(K(1, 9)) == gw), depth=12)
     h.cover("cover.wr.burst", z3.And(wr_done, glen == K(1, 8)), depth=10)
     h.cover("cover.readback", z3.And(m_rf, word_of(nr) == gw, sv != K(0, 8)), depth=10)
-    h.bmc_depth = 12
+    h.bmc_depth = 12; h.bmc_time = 45
 
 def c_axi2wb(base=0x400, addressing="word", dw=32, limits=True, err_case=False):
     AW, IDW = 16, 2
@@ -238,7 +238,7 @@ def c_axi2wb(base=0x400, addressing="word", dw=32, limits=True, err_case=False):
 _cases1 = cases
 def cases(tier):
     cs = _cases1(tier)
-    cs += [VCase("AXI2Wishbone.mem(base=0x400,word)", c_axi2wb, 0x400, "word", 32, False, timeout=900), VCase("AXI2Wishbone.mem(base=0,byte)", c_axi2wb, 0, "byte", 32, False, timeout=900),
+    cs += [VCase("AXI2Wishbone.mem(base=0x400,word)", c_axi2wb, 0x400, "word", 32, False, timeout=1800), VCase("AXI2Wishbone.mem(base=0,byte)", c_axi2wb, 0, "byte", 32, False, timeout=1800),
            VCase("AXI2Wishbone.mem(err)", c_axi2wb, 0, "word", 32, False, True)]
     if tier == "thorough":
         cs += [VCase("AXI2Wishbone.mem(base=0x800,word,dw=64)", c_axi2wb, 0x800, "word", 64, False, timeout=1800)]
@@ -277,7 +277,7 @@ def wb2axi_contract(h, d, wb, a, base, only_address_finding=False):
     h.ghost_next(s_wd, z3.If(F(a.w), V(a.w.data), s_wd)); h.ghost_next(s_ws, z3.If(F(a.w), V(a.w.strb), s_ws))
     if only_address_finding:
         ok = lambda ch: z3.Implies(b(V(ch.valid)), V(ch.addr) == baddr)
-        h.finding("finding.base-offset", z3.And(ok(a.aw), ok(a.ar)), W2A_BASE)
+        h.ensure("ens.base-offset", z3.And(ok(a.aw), ok(a.ar)))        # was finding.base-offset: repaired in /repo by 3993fb8 (fixed: entry in known_findings.json)
         h.cover("cover.aw", b(V(a.aw.valid)), depth=3)
         h.bmc_depth = 4
         return
@@ -352,7 +352,8 @@ _cases2 = cases
 def cases(tier):
     cs = _cases2(tier)
     cs += [VCase("Wishbone2AXI.mem(32,base=0x400,word)", c_wb2axi, 32, 0x400, "word"), VCase("Wishbone2AXI.mem(64,base=0,word)", c_wb2axi, 64, 0, "word"), VCase("Wishbone2AXI.mem(32,base=0,byte)", c_wb2axi, 32, 0, "byte"),
-           VCase("Wishbone2AXI.base(64,base=0x400,word)", c_wb2axi, 64, 0x400, "word", True), VCase("Wishbone2AXI.base(32,base=0x400,byte)", c_wb2axi, 32, 0x400, "byte", True)]
+           VCase("Wishbone2AXI.base(64,base=0x400,word)", c_wb2axi, 64, 0x400, "word", True), VCase("Wishbone2AXI.base(32,base=0x400,byte)", c_wb2axi, 32, 0x400, "byte", True),
+           VCase("Wishbone2AXI.mem(64,base=0x400,word)", c_wb2axi, 64, 0x400, "word"), VCase("Wishbone2AXI.mem(32,base=0x400,byte)", c_wb2axi, 32, 0x400, "byte")]
     return cs
 ASSUMPTIONS += ["Wishbone2AXI direct contract: classic Wishbone master holding its request; AXI slave answers B after AW and W, R after AR, holds responses, is a byte memory at the tracked byte whose writes take effect with the OKAY response"]
 
@@ -536,7 +537,7 @@ def cases(tier):
     INIT = [0x11223344, 0xa5a5f00f, 0x00000000, 0xdeadbeef]
     cs += [VCase("AXILiteSRAM(4x32,read_only)", c_axilsram_cfg, 4, True, INIT, False), VCase("AXILiteSRAM(4x32,init)", c_axilsram_cfg, 4, False, INIT, False),
            VCase("AXILiteSRAM(4x32,Memory)", c_axilsram_cfg, 4, False, INIT, True), VCase("AXILiteSRAM(4x32,Memory,read_only)", c_axilsram_cfg, 4, True, INIT, True),
-           VCase("AXILiteSRAM(narrow Memory)", c_axilsram_narrow),
+
            VCase("AXILite2AXI(dw=64,INCR)", c_axil2axi_w, 64, "INCR"), VCase("AXILite2AXI(dw=64,WRAP)", c_axil2axi_w, 64, "WRAP"),
            VCase("AXILiteConverter(32->32)", c_axil_conv1, 32), VCase("AXILiteConverter(64->64)", c_axil_conv1, 64),
            VCase("AXILiteDownConverter(64->32)", c_axil_down, 64, 32, timeout=1200),
@@ -670,7 +671,7 @@ def axi2axil_contract(h, d, m, s):
         h.hint("wresp", z3.Implies(wr, S("WRITE-RESP") == (nw == L9 + 1)))
     except (AttributeError, KeyError, TypeError, IndexError) as e: h.note = f"hints skipped: {e!r}"; h.use_auto = True
     h.cover("cover.rd.burst", z3.And(rd_done, glen == K(2, 8)), depth=12); h.cover("cover.wr.burst", z3.And(wr_done, glen == K(1, 8)), depth=12)
-    h.bmc_depth = 14
+    h.bmc_depth = 14; h.bmc_time = 45
 
 def axil2axi_contract(h, s_, a):
     V = h.v; SH = (len(a.w.data) // 8).bit_length() - 1
@@ -693,7 +694,8 @@ def axi_width_contract(h, d, m, s):
         full = V(f.size) == K(SHm, 3)
         bytes_m = (zx(V(f.len), 16) + 1) << SHm; bytes_s = (zx(V(t.len), 16) + 1) << zx(V(t.size), 16)
         if NBm > NBs: fits = z3.BoolVal(True) if True else None
-        h.ensure(f"ens.{ch}.ctrl", z3.And(V(t.valid) == V(f.valid), V(f.ready) == V(t.ready), V(t.id) == V(f.id)))
+        idw = min(V(t.id).size(), V(f.id).size())                      # (a change of id width is reported by the structural clause ens.id-width-kept)
+        h.ensure(f"ens.{ch}.ctrl", z3.And(V(t.valid) == V(f.valid), V(f.ready) == V(t.ready), z3.Extract(idw - 1, 0, V(t.id)) == z3.Extract(idw - 1, 0, V(f.id))))
         h.ensure(f"ens.{ch}.word", z3.Implies(b(V(f.valid)), z3.Extract(AWd - 1, LBIG, V(t.addr)) == z3.Extract(AWd - 1, LBIG, V(f.addr))))                      # the burst starts in the same wide word
         if NBm > NBs:   # down: (len+1)*ratio beats of the narrow width (as long as the result fits the 8-bit len field)
             nofl = z3.ULE((zx(V(f.len), 16) + 1) * (NBm // NBs), z3.BitVecVal(256, 16))
@@ -704,7 +706,8 @@ def axi_width_contract(h, d, m, s):
             whole = z3.And((zx(V(f.len), 16) + 1) & z3.BitVecVal(r - 1, 16) == 0, z3.Extract(LBIG - 1, 0, V(f.addr)) == K(0, LBIG))
             h.ensure(f"ens.{ch}.bytes", z3.Implies(z3.And(b(V(f.valid)), full, whole), z3.And(bytes_s == bytes_m, V(t.size) == K(SHs, 3))))
             h.ensure(f"ens.{ch}.burst", z3.Implies(b(V(f.valid)), V(t.burst) == V(f.burst)))
-    h.ensure("ens.b", z3.And(V(m.b.valid) == V(s.b.valid), V(s.b.ready) == V(m.b.ready), V(m.b.resp) == V(s.b.resp), V(m.b.id) == V(s.b.id)))
+    idw = min(V(m.b.id).size(), V(s.b.id).size())
+    h.ensure("ens.b", z3.And(V(m.b.valid) == V(s.b.valid), V(s.b.ready) == V(m.b.ready), V(m.b.resp) == V(s.b.resp), z3.Extract(idw - 1, 0, V(m.b.id)) == z3.Extract(idw - 1, 0, V(s.b.id))))
     h.cover("cover.aw", z3.And(fire(h, s.aw), V(m.aw.len) == K(3, 8), V(m.aw.size) == K(SHm, 3)), depth=2)
     h.use_auto = False
 
@@ -764,7 +767,7 @@ def _ins_s(itf, kind):
 
 def c_adapter_ext(i_kind, i_dw, i_addr, bus_kind, bus_dw, direction, bursting=False):
     itf = _mk_if(i_kind, i_dw, i_addr, bursting)
-    name = f"add_adapter({i_kind}/{i_dw}/{i_addr}{'/bursting' if bursting else ''}->{bus_kind}/{bus_dw},{direction})"
+    name = f"add_adapter.ext({i_kind}/{i_dw}/{i_addr}{'/bursting' if bursting else ''}->{bus_kind}/{bus_dw},{direction})"
     try: d, ad = _build_adapter(itf, bus_kind, bus_dw, direction)
     except Exception as e: return _elab_failure(name, e)
     pre = [_shape(d, ad, bus_kind, bus_dw)]
@@ -779,7 +782,15 @@ def c_adapter_ext(i_kind, i_dw, i_addr, bus_kind, bus_dw, direction, bursting=Fa
     elif pair == ("axi", "axi-lite") and master.data_width == slave.data_width: axi2axil_contract(h, d, master, slave)
     elif pair == ("axi-lite", "axi") and master.data_width == slave.data_width: axil2axi_contract(h, master, slave)
     elif pair == ("axi", "axi"): axi_width_contract(h, d, master, slave)
-    elif "axi" not in pair and "ahb" not in pair: lane_contract(h, d, master, slave, mk_ == "axi-lite" and master.data_width > min(bus_dw, i_dw))
+    elif mk_ in ("wishbone", "axi-lite") and sk_ in ("wishbone", "axi-lite", "axi"):          # (an AXI slave of such a chain only sees single-beat transfers: its AW address is the beat address)
+        lane_contract(h, d, master, slave, mk_ == "axi-lite" and master.data_width > min(bus_dw, i_dw))
+        if sk_ == "axi":
+            for ch in ("aw", "ar"): h.ensure(f"ens.{ch}.single-beat", z3.Implies(b(h.v(getattr(slave, ch).valid)), z3.And(h.v(getattr(slave, ch).len) == K(0, 8), h.v(getattr(slave, ch).size) == K((len(slave.w.strb)).bit_length() - 1, 3))))
+    elif mk_ == "axi" and sk_ == "wishbone":
+        # AXI master with a width change in front of the bridge: structure only (classes, directions, shape); the two stages have their own contracts (C10 converter, AXI2Wishbone above)
+        h.ensure("ens.cyc=stb", h.v(slave.cyc) == h.v(slave.stb))
+        h.cover("cover.wb-write", z3.And(b(h.v(slave.cyc)), b(h.v(slave.stb)), b(h.v(slave.we))), depth=8)
+        pre.append(res("ens.chain", "ensures", OK if len(_subs(d, axi_pkg.AXIConverter)) == 1 and len(_subs(d, AXI2Wishbone)) == 1 else VIOLATED, 0, "structural"))
     else: raise ValueError(f"no contract for the chain {pair} with a width change")
     # the right converter / bridge classes were instantiated, in the right direction (structural)
     want = {("ahb", "wishbone"): ahb.AHB2Wishbone, ("axi", "wishbone"): AXI2Wishbone, ("wishbone", "axi"): Wishbone2AXI, ("axi", "axi-lite"): AXI2AXILite, ("axi-lite", "axi"): AXILite2AXI}.get(pair)
@@ -790,6 +801,10 @@ def c_adapter_ext(i_kind, i_dw, i_addr, bus_kind, bus_dw, direction, bursting=Fa
         pre.append(res("ens.converter-direction", "ensures", OK if okc else VIOLATED, 0, "structural"))
         idok = all(len(getattr(ad, c).id) == len(getattr(itf, c).id) for c in ("aw", "w", "b", "ar", "r"))
         pre.append(res("ens.id-width-kept", "ensures", OK if idok else VIOLATED, 0, "structural"))
+    # the chain drives the master-side port only on its response signals and the slave-side port only on its request signals (the converters were given the ports the right way round)
+    driven = set(h.ts.comb_targets) | set(h.ts.state)
+    wrong = [s_ for s_ in _ins_m(master, mk_) + _ins_s(slave, sk_) if s_ in driven]
+    pre.append(res("ens.port-directions", "ensures", OK if not wrong else VIOLATED, 0, "structural", got=f"{len(wrong)} environment-side signals are driven by the adapter chain"))
     h.functions = ["litex.soc.integration.soc.SoCBusHandler.add_adapter", "(converters / bridges it instantiates: own contracts in C07 / C09 / C10)"]
     h.pre_results = pre
     return h
@@ -801,13 +816,14 @@ GRID4 = [("ahb", 32, "byte", "wishbone", 32, "m2s"), ("ahb", 64, "byte", "wishbo
          ("axi-lite", 32, "byte", "axi", 32, "m2s"), ("axi", 32, "byte", "axi-lite", 32, "s2m"), ("axi-lite", 64, "byte", "axi", 64, "m2s"),
          ("axi", 64, "byte", "axi", 32, "m2s"), ("axi", 32, "byte", "axi", 64, "m2s"), ("axi", 32, "byte", "axi", 64, "s2m"), ("axi", 64, "byte", "axi", 32, "s2m"),
          ("wishbone", 64, "word", "wishbone", 32, "m2s", True), ("wishbone", 32, "word", "wishbone", 64, "m2s", True), ("wishbone", 32, "byte", "wishbone", 32, "m2s", True),
-         ("wishbone", 32, "word", "axi-lite", 32, "m2s", True), ("axi", 64, "byte", "axi", 32, "m2s", True)]
+         ("wishbone", 32, "word", "axi-lite", 32, "m2s", True), ("axi", 64, "byte", "axi", 32, "m2s", True),
+         ("axi-lite", 32, "byte", "axi", 64, "m2s"), ("axi", 64, "byte", "wishbone", 32, "m2s")]
 
 _cases4 = cases
 def cases(tier):
     cs = _cases4(tier)
     for c in GRID4:
-        cs.append(VCase(f"add_adapter({c[0]}/{c[1]}/{c[2]}{'/bursting' if len(c) > 6 and c[6] else ''}->{c[3]}/{c[4]},{c[5]})", c_adapter_ext, *c, timeout=900))
+        cs.append(VCase(f"add_adapter.ext({c[0]}/{c[1]}/{c[2]}{'/bursting' if len(c) > 6 and c[6] else ''}->{c[3]}/{c[4]},{c[5]})", c_adapter_ext, *c, timeout=1800))
     return cs
 ASSUMPTIONS += ["add_adapter (extension): AHB masters follow AHB-Lite (address phase held while hready is low); AXI chains use the environments of the AXI2Wishbone / Wishbone2AXI / AXI2AXILite contracts; "
-                "AXI width conversion: address channels and class / direction / id widths are checked here, the converters' data paths are C10's; chains that combine an AXI width change with a standard change are not in the grid"]
+                "AXI width conversion: address channels and class / direction / id widths are checked here, the converters' data paths are C10's; an AXI MASTER whose width differs from the bus (AXI converter + bridge) gets structural clauses only"]
